@@ -167,6 +167,16 @@ fn suffix_mid_label(rule: &str, host: &str) -> bool {
     !(o == 0 || h.starts_with('.') || host.as_bytes()[o - 1] == b'.')
 }
 
+/// `||WWW.host`: "www." is stripped case-sensitively, before lower-casing
+fn www_strip_case(rule: &str) -> bool {
+    let sp = split(rule);
+    if sp.left != 2 {
+        return false;
+    }
+    let raw = &sp.body[..host_cut(sp.body)];
+    raw.trim_start_matches("www.").to_ascii_lowercase() != raw.to_ascii_lowercase().trim_start_matches("www.")
+}
+
 // ------------------------------------------------------------------ generators
 const FHOSTS: &[&str] = &[
     "ads.net", "net", "ads", ".net", "ads.", ".ads", "xads.net", "ads.net.ads.net", "s.net", "ds.net", "foo.com", "com", "foo",
@@ -246,7 +256,7 @@ fn rule_line(r: &mut Rng) -> String {
         3 => format!("||{}*{}", r.pick(gen::HOSTS), r.pick(gen::VOCAB)),
         4 => format!("||{}*{}^{}", r.pick(gen::HOSTS), r.pick(gen::VOCAB), r.pick(gen::VOCAB)),
         5 => (r.pick(&["|http://|", "|https://|", "|http://", "|https://", "|ws://", "|http*://", "||http://", "|http://x.com/", "|https://ads.net^"])).to_string(),
-        6 => format!("||www.{}^", r.pick(gen::HOSTS)),
+        6 => format!("||{}{}^", r.pick(&["www.", "www.", "WWW.", "Www.", "www.www.", "www.WWW."]), r.pick(gen::HOSTS)),
         7 => format!("||{}/{}|", r.pick(gen::HOSTS), r.pick(gen::VOCAB)),
         8 => format!("@@||{}^{}", r.pick(gen::HOSTS), r.pick(gen::VOCAB)),
         9 => format!("/{}\\/[a-z]+{}/", r.pick(gen::VOCAB), r.pick(&["", "\\d", "\\:", ".*"])),
@@ -377,6 +387,8 @@ fn oracle(sm: &mut Summary, stats: &mut std::collections::BTreeMap<String, u64>,
         sm.failure(Some("F22_host_right_pipe"), &what, replay);
     } else if degenerate(rule) {
         *stats.entry("oracle_degenerate_disagreements".into()).or_insert(0) += 1;
+    } else if www_strip_case(rule) {
+        sm.failure(Some("C02_www_strip_case"), &what, replay);
     } else if suffix_mid_label(rule, &e.host) {
         sm.failure(Some("C02_suffix_mid_label"), &what, replay);
     } else if e.url_lc.find(e.host.as_str()) != Some(hs) && split(rule).left == 2 {
@@ -466,8 +478,8 @@ fn replay(v: &Value, path: &std::path::Path) -> i32 {
         Ok(e) => {
             let want = e.hs.and_then(|hs| reference(rule, e.url_lc.as_bytes(), e.host.as_bytes(), hs)).map(|w| w && scheme_ok(e.mask, &e.url));
             println!(
-                "rule {:?} url {:?} host {:?}: mask {:#x} filter {:?} hostname {:?}; matches = {}, ABP semantics = {:?}; F22 class {}, suffix-mid-label class {}, degenerate {}",
-                rule, e.url, e.host, e.mask, e.filter, e.hostname, e.matches, want, host_right_pipe(rule), suffix_mid_label(rule, &e.host), degenerate(rule)
+                "rule {:?} url {:?} host {:?}: mask {:#x} filter {:?} hostname {:?}; matches = {}, ABP semantics = {:?}; F22 class {}, suffix-mid-label class {}, www-strip-case class {}, degenerate {}",
+                rule, e.url, e.host, e.mask, e.filter, e.hostname, e.matches, want, host_right_pipe(rule), suffix_mid_label(rule, &e.host), www_strip_case(rule), degenerate(rule)
             );
             if want.is_some() && want != Some(e.matches) {
                 println!("VIOLATION property=C02 replay={}", path.display());
@@ -497,6 +509,7 @@ fn main() {
         ("|http://|", "http://x.com/foo"),
         ("||ads.net^", "https://ads.net.xads.net/x"),
         ("||t/x", "https://t/x"),
+        ("||WWW.ads.net^", "https://ads.net/x"),
     ] {
         if let Ok(e) = eval(rule, url) {
             oracle(&mut sm, &mut ostats, rule, url, &e);
